@@ -198,6 +198,20 @@ CLAIMED.update({
         note="'some producer has completed' (provenance of values) is checked by the event oracle, not proved.",
         technique="Coq proof (ready-list characterisation, version arithmetic) + event-stream oracle",
     ),
+    "C19": dict(
+        category="proof",
+        text="Validate.valid (the constructor's whole validation pipeline, incl. the mutex-or-ordered rule with reachability decided by a proven "
+             "procedure) accepts a graph iff it is well formed in the declarative sense (C19_valid_iff_wellformed); one flaw of any class at any "
+             "node, edge or producer, at any nesting depth, makes it reject (13 corollaries). Typing.compat is proved to be a fixed point of the "
+             "documented rule table for type expressions of any depth, with identity / Any / union / generic / subclass / Annotated / TypeVar rules "
+             "as equations. Tied to /repo by: every valid generated graph x every flaw class x position (also nested, behind renames applied to "
+             "used nodes) against Graph(...), model outcome == real outcome, and is_type_compatible == compat on all ordered pairs of a closed "
+             "type universe.",
+        design_ref="DESIGN.md section 5 C19",
+        note="A GraphNode's interface (inputs, outputs, defaults, types) is read from the real wrapper; string predicates and issubclass are "
+             "evaluated in Python; errors raised by node constructors themselves are outside the Graph constructor.",
+        technique="Coq proof (decision procedure <-> declarative well-formedness; fixed-point equation of the type judgement) + exhaustive flaw injection and differential correspondence",
+    ),
 })
 
 REASON_TODO = "not claimed yet: model/theorems for this property are not built in this revision (see DESIGN.md section 10)"
